@@ -256,9 +256,13 @@ def gen_lang(rng: random.Random) -> Lang:
 # generated where a function is wanted)
 
 class Gen:
-    def __init__(self, rng, lang: Lang):
+    def __init__(self, rng, lang: Lang, res_type=None, pending=(), must=False):
         self.rng, self.lang = rng, lang
         self.slots = []          # required type per slot of the tool being generated
+        self.bound = []          # resource each slot is fed by (None: decided later)
+        self.res_type = res_type or {}
+        self.pending = list(pending)     # outputs nobody consumes yet
+        self.must = must                 # the final tool: consume whatever is pending
 
     def data(self, want, depth, p_leaf=0.3):
         """a term whose type is (approximately) a subtype of `want`; returns (term, type)"""
@@ -304,17 +308,26 @@ class Gen:
 
     def leaf(self, want):
         rng, L = self.rng, self.lang
+        fit = [r for r in self.pending if L.sub(self.res_type[r], want)]
+        if fit and (self.must or rng.random() < 0.7):
+            r = rng.choice(fit)
+            self.pending.remove(r)
+            self.slots.append(want)
+            self.bound.append(r)
+            return ("in", len(self.slots) - 1, None), self.res_type[r]
         if rng.random() < 0.12:
             t = rng.choice(L.subs(want))
             return ("anon", t), t
         # reuse a slot of this tool whose requirement is compatible (the same input twice)
         if self.slots and rng.random() < 0.2:
-            ks = [k for k, w in enumerate(self.slots) if L.meet(w, want) is not None]
+            ks = [k for k, w in enumerate(self.slots) if L.meet(w, want) is not None
+                  and (self.bound[k] is None or L.sub(self.res_type[self.bound[k]], want))]
             if ks:
                 k = rng.choice(ks)
                 self.slots[k] = L.meet(self.slots[k], want)
                 return ("in", k, None), self.slots[k]
         self.slots.append(want)
+        self.bound.append(None)
         return ("in", len(self.slots) - 1, None), want
 
     def fun(self, ft, depth):
@@ -419,53 +432,50 @@ def term_stats(lang, t, acc: Counter, depth=0):
 def gen_workflow(rng: random.Random, lang: Lang, napps: int):
     L = lang
     names = list(L.parents)
+    roots = [b for b in names if L.parents[b] is None]
     res_type = {}            # resource -> harness type (sources: intended type)
     sources, apps = [], []
     consumed = set()
     for j in range(napps):
         last = j == napps - 1
-        for attempt in range(8):
-            g = Gen(rng, L)
-            want = rng.choice(names if not (L.has_f and rng.random() < 0.15)
-                              else [("F", b) for b in names])
+        pending = [o["out"] for o in apps if o["out"] not in consumed]
+        best = None
+        for attempt in range(10):
+            g = Gen(rng, L, res_type, pending, must=last)
             if last or rng.random() < 0.5:
-                # general result types keep later tools able to consume this one
-                roots = [b for b in names if L.parents[b] is None]
-                want = rng.choice(roots) if not isinstance(want, tuple) else want
-            term, ty = g.data(want, rng.randint(1, 3), p_leaf=0.0 if attempt < 6 else 0.3)
+                want = rng.choice(roots)     # general results keep later tools able to consume
+            elif L.has_f and rng.random() < 0.15:
+                want = ("F", rng.choice(names))
+            else:
+                want = rng.choice(names)
+            term, ty = g.data(want, rng.randint(1, 3), p_leaf=0.0 if attempt < 8 else 0.3)
             if has_none(term) or term[0] != "ap":
                 continue
-            pending = [o["out"] for o in apps if o["out"] not in consumed]
             if j > 0 and not g.slots:
                 continue
-            # at least one slot must be able to take a pending output when there is one
-            if pending and not any(L.sub(res_type[p], w) for p in pending for w in g.slots) \
-                    and attempt < 7:
-                continue
-            break
-        else:
+            if best is None or len(g.pending) < len(best[0].pending):
+                best = (g, term, ty)
+            if not g.pending or (not last and len(g.pending) < len(pending)):
+                break
+        if best is None:
             return None
-        if has_none(term) or term[0] != "ap":
-            return None
+        g, term, ty = best
         ins = []
         for k, w in enumerate(g.slots):
-            pend = [o["out"] for o in apps if o["out"] not in consumed and o["out"] not in ins
-                    and L.sub(res_type[o["out"]], w)]
-            olds = [r for r in list(res_type) if L.sub(res_type[r], w)]
-            r = None
-            if pend and (last or rng.random() < 0.75):
-                r = rng.choice(pend)
-            elif olds and rng.random() < 0.55:
-                r = rng.choice(olds)             # shared source or shared intermediate
+            r = g.bound[k]
             if r is None:
-                r = f"s{len(sources)}"
-                sources.append(r)
-                res_type[r] = rng.choice(L.subs(w)) if rng.random() < 0.6 else w
+                olds = [q for q in list(res_type) if L.sub(res_type[q], w)]
+                if olds and rng.random() < 0.5:
+                    r = rng.choice(olds)             # shared source or shared intermediate
+                else:
+                    r = f"s{len(sources)}"
+                    sources.append(r)
+                    res_type[r] = rng.choice(L.subs(w)) if rng.random() < 0.6 else w
             ins.append(r)
         for r in ins:
             if not r.startswith("s"):
                 consumed.add(r)
-        # annotations
+
         def annot(leaf):
             if leaf[0] != "in":
                 return leaf
@@ -476,18 +486,32 @@ def gen_workflow(rng: random.Random, lang: Lang, napps: int):
                 return leaf
             if u < 0.75:
                 return ("in", k, w)
-            if u < 0.93:
+            if u < 0.95:
                 mids = [t for t in L.subs(w) if L.sub(res_type[r], t)]
                 return ("in", k, rng.choice(mids) if mids else w)
-            if u < 0.97 and not isinstance(w, tuple):
+            if u < 0.98 and not isinstance(w, tuple):
                 return ("in", k, rng.choice(names))        # possibly wrong on purpose
             return ("in", k, w)
         term = map_leaves(term, annot)
         out = f"t{j}"
         res_type[out] = ty
         apps.append({"out": out, "term": term, "ins": ins})
+    if rng.random() < 0.94:
+        # keep what feeds the final application (a few workflows keep several final ones)
+        prod = {a["out"]: a for a in apps}
+        keep, todo = set(), [apps[-1]["out"]]
+        while todo:
+            r = todo.pop()
+            if r in keep:
+                continue
+            keep.add(r)
+            if r in prod:
+                todo += prod[r]["ins"]
+        apps = [a for a in apps if a["out"] in keep]
+        if rng.random() < 0.8:
+            sources = [q for q in sources if q in keep]
     if rng.random() < 0.06:
-        sources.append(f"s{len(sources)}")                  # a source nobody uses
+        sources.append(f"s{len(sources) + 20}")             # a source nobody uses
     return {"sources": sources, "apps": apps}
 
 
@@ -714,6 +738,13 @@ def run_wf(lang: Lang, wf, how="listed", passthrough=True, app_order=None, sourc
         o = Obs()
         o.error = (type(e).__name__,)
         return o
+
+
+def is_typing_error(err) -> bool:
+    """the declared ways in which a well-formed but ill-typed workflow is rejected"""
+    return err is not None and err[0] in ("WorkflowCompositionError", "ApplicationError",
+        "TypeAnnotationError", "SubtypeMismatch", "TypeMismatch", "ConstraintViolation",
+        "ConstrainFreeVariable", "FunctionApplicationError", "TypingError")
 
 
 # --------------------------------------------------------------------------
@@ -1094,3 +1125,625 @@ def model_obs(lang: Lang, res: dict, val) -> Obs:
     inv = {v: k for k, v in res.items()}
     o.rmap = {inv[r]: n for r, n in rmap}
     return o
+
+
+# --------------------------------------------------------------------------
+# source_types, observed directly (public API)
+
+SIG_SRC = "workflow.py:source_types:unannotated-and-annotated-uses-override-each-other-in-listing-order"
+# the typed half rests on inference being insensitive to the order in which applications are
+# inferred (C05 proves that for comparable arguments only, C18 refutes it in general)
+SIG_INFER = "typed-half:inlined-expression-infers-differently:a-source-is-left-to-inference"
+
+
+def source_types_obs(lang: Lang, wf, app_order, source_order=None):
+    """{source: normalised type text} as Workflow.source_types yields it"""
+    try:
+        w = build_wf(lang, wf, "listed", app_order, source_order)
+        out = {}
+        for n, t in w.source_types(lang.language):
+            txt = norm_vars(t.text(with_constraints=True)) if hasattr(t, "text") else str(t)
+            out[str(n)[len(NS) + 2:]] = txt
+        return out
+    except Exception as e:      # noqa: BLE001
+        return {"error": type(e).__name__}
+
+
+def uses_of(wf) -> dict:
+    """per source: list of annotations (None = not annotated) in listing order"""
+    out = {s: [] for s in wf["sources"]}
+
+    def walk(a, t):
+        if t[0] == "in":
+            q = a["ins"][t[1]]
+            if q in out:
+                out[q].append(t[2])
+        elif t[0] == "ap":
+            for x in t[2]:
+                walk(a, x)
+    for a in wf["apps"]:
+        walk(a, a["term"])
+    return out
+
+
+# --------------------------------------------------------------------------
+# passthrough off: the type of the source node made for a tool input (oracle (d))
+
+def isolated_input_types(lang: Lang, wf):
+    """multiset of type texts the tools give, each parsed on its own, to their inputs
+    that are other tools' outputs; None where a workflow source without a concrete
+    derived type takes part (then other tools can influence the outcome)"""
+    from transforge.expr import Source
+    prod = producers(wf)
+    w = build_wf(lang, wf, "listed")
+    st = {str(n)[len(NS) + 2:]: t for n, t in w.source_types(lang.language)}
+    out = []
+    for a in wf["apps"]:
+        used = set(slots_of(a["term"]))
+        ins = []
+        open_source = False
+        for q in a["ins"]:
+            if q in prod:
+                ins.append(Source())
+            else:
+                t = st[q]
+                if any(True for _ in t.variables()):
+                    open_source = True
+                ins.append(Source(t))
+        if open_source and any(q in prod for q in a["ins"]):
+            return None
+        e = lang.language.parse_expr(term_text(lang, a["term"]), *ins)
+        e.fix()
+        for k, q in enumerate(a["ins"]):
+            if q in prod and k in used:
+                out.append(norm_vars(f"{ins[k].type} from source"))
+    return Counter(out)
+
+
+def indirection_labels(o: Obs) -> Counter:
+    """labels of the source nodes that are fed by another node"""
+    fed = {s for s, p, t in o.edges if p == "from"}
+    return Counter(o.nodes[n][2][0] if o.nodes[n][2] else "" for n in fed if not o.nodes[n][0]
+                   and not any(p == "internal" and t == n for _, p, t in o.edges))
+
+
+# --------------------------------------------------------------------------
+# fixed cases
+
+def fixed_cases():
+    """(name, language, workflow): the Coq example, the witness of the source_types defect,
+    shapes of the pinned test-suite"""
+    def mono(name, params, res):
+        return dict(kind="mono", name=name, params=params, res=res, bound=None)
+
+    def ap(n, *a):
+        return ("ap", n, list(a))
+
+    def I(k, an=None):
+        return ("in", k, an)
+    out = []
+    # C12_ex_wf (props/C12.v): k t3 t2 / f s0 / h (g t2) s0, a source nobody uses
+    l1 = Lang({"T0": None}, False, [
+        mono("f", ["T0"], "T0"), mono("h", [("fn", ["T0"], "T0"), "T0"], "T0"),
+        mono("g", ["T0", "T0"], "T0"), mono("k", ["T0", "T0"], "T0")], [])
+    out.append(("coq_example", l1, {"sources": ["s0", "s1"], "apps": [
+        {"out": "t0", "term": ap("f", I(0)), "ins": ["s0"]},
+        {"out": "t1", "term": ap("h", ap("g", I(0)), I(1)), "ins": ["t0", "s0"]},
+        {"out": "t2", "term": ap("k", I(0), I(1)), "ins": ["t1", "t0"]}]}))
+    # C12_source_types_pinned_refuted: `m (1 : T0)` and `n 1` (n needs T1 < T0) on one source
+    l2 = Lang({"T0": None, "T1": "T0"}, False, [
+        mono("m", ["T0"], "T0"), mono("n", ["T1", "T0"], "T0")], [])
+    out.append(("source_types_witness", l2, {"sources": ["s0"], "apps": [
+        {"out": "t0", "term": ap("m", I(0, "T0")), "ins": ["s0"]},
+        {"out": "t1", "term": ap("n", I(0), I(1)), "ins": ["s0", "t0"]}]}))
+    # test_disabling_of_output_passthrough / test_inter_tool_types
+    l3 = Lang({"T0": None, "T1": "T0", "T2": "T1"}, False, [
+        dict(kind="id", name="f", params=["x"], res="x", bound="T0"),
+        dict(kind="join", name="j", params=["x", "x"], res="x", bound="T0")], [])
+    out.append(("test_passthrough_shape", l3, {"sources": ["s0"], "apps": [
+        {"out": "t0", "term": ap("f", I(0, "T1")), "ins": ["s0"]},
+        {"out": "t1", "term": ap("f", I(0, "T0")), "ins": ["t0"]}]}))
+    # test_source_reuse_does_not_affect_type_fixing_for_apps
+    out.append(("test_source_reuse_shape", l3, {"sources": ["s0"], "apps": [
+        {"out": "t0", "term": ap("j", ("anon", "T0"), I(0, "T0")), "ins": ["s0"]},
+        {"out": "t1", "term": ap("j", I(0, "T0"), I(1, "T1")), "ins": ["t0", "s0"]}]}))
+    return out
+
+
+# --------------------------------------------------------------------------
+# one case
+
+class Case:
+    def __init__(self, name, lang, wf):
+        self.name, self.lang, self.wf = name, lang, wf
+        self.shape = wf_shape(wf)
+        self.dom = in_domain(lang, wf)
+        self.model_jobs = []      # (passthrough, app_order, source_order, impl Obs)
+        self.st_jobs = []         # (app_order, source_order)
+
+    def payload(self, **kw):
+        d = {"name": self.name, "language": self.lang.to_json(),
+             "operators": [(o["name"], self.lang.sig_text(o)) for o in self.lang.ops],
+             "workflow": self.wf, "workflow_text": wf_text(self.lang, self.wf),
+             "how_to_rebuild": "base types with the given parents, F unary covariant; operators with the "
+                               "listed signatures; WorkflowDict(root, {out: (expression, inputs)}, sources) "
+                               "or the harness' ListedWorkflow for a chosen listing order; "
+                               "TransformationGraph(lang, minimal=True, with_operators=True, with_types=True, "
+                               "with_labels=True, with_inputs=True, with_output=True, "
+                               "with_noncanonical_types=True, passthrough=...).add_workflow(wf)"}
+        d.update(kw)
+        return d
+
+
+def orders_for(rng, wf, tier):
+    outs = [a["out"] for a in wf["apps"]]
+    n = len(outs)
+    perms = list(itertools.permutations(outs))
+    if tier == "quick":
+        if len(perms) > 6:
+            perms = [perms[0], perms[-1]] + rng.sample(perms[1:-1], 4)
+    else:
+        if len(perms) > 24:
+            head = [perms[0], perms[-1]]
+            perms = head + rng.sample(perms[1:-1], 22)
+    res = []
+    for p in perms:
+        so = list(wf["sources"])
+        rng.shuffle(so)
+        res.append((list(p), so))
+    return res
+
+
+def same_outcome(a: Obs, b: Obs) -> bool:
+    return (a.error is None) == (b.error is None)
+
+
+def check_case(rep: C.Report, rng, case: Case, tier, acc: Counter, idx: int, all_orders=False):
+    lang, wf = case.lang, case.wf
+    orders = orders_for(rng, wf, tier)
+    if all_orders:
+        outs = [a["out"] for a in wf["apps"]]
+        orders = [(list(p), list(wf["sources"])) for p in itertools.permutations(outs)]
+    acc["listing_orders_run"] += len(orders)
+    case.st_jobs = [orders[0], orders[-1]] if len(orders) > 1 else [orders[0]]
+    # --- (c0) source_types by listing order
+    st0 = source_types_obs(lang, wf, orders[0][0], orders[0][1])
+    st_diff = None
+    for ao, so in orders[1:]:
+        st = source_types_obs(lang, wf, ao, so)
+        if st != st0:
+            st_diff = (ao, so, st)
+            break
+    uses = uses_of(wf)
+    comparable = all(lang.meet(x, y) is not None for us in uses.values()
+                     for x in us for y in us if x is not None and y is not None)
+    if st_diff is not None and not comparable:
+        # annotations no type satisfies: the workflow is ill-typed whatever source_types says
+        acc["source_types_differs_on_incomparable_annotations"] += 1
+        st_diff = None
+    if st_diff is not None:
+        acc["source_types_order_dependent"] += 1
+        ao, so, st = st_diff
+        mixed = [s for s, us in uses.items() if any(u is None for u in us) and any(u is not None for u in us)]
+        sig = SIG_SRC if mixed else None
+        rep.violation(f"source_types_{idx}", case.payload(kind="oracle",
+            what="Workflow.source_types depends on the listing order of the tool applications",
+            order_a=orders[0][0], result_a=st0, order_b=ao, result_b=st,
+            sources_with_annotated_and_unannotated_uses=mixed), has_input=True, signature=sig)
+    for pt in (True, False):
+        tag = "pass" if pt else "nopass"
+        base = run_wf(lang, wf, "listed", pt, orders[0][0], orders[0][1])
+        acc[f"outcome_{tag}_{'ok' if base.error is None else base.error[0]}"] += 1
+        case.model_jobs.append((pt, orders[0][0], orders[0][1], base))
+        # --- (c) listing orders and descriptions
+        for j, (ao, so) in enumerate(orders[1:], start=1):
+            o = run_wf(lang, wf, "listed", pt, ao, so)
+            acc["impl_runs"] += 1
+            if j == len(orders) - 1 or (tier != "quick" and j % 7 == 3):
+                case.model_jobs.append((pt, ao, so, o))
+            ok = iso(base, o) if (base.error is None and o.error is None) else same_outcome(base, o)
+            if base.error is not None and o.error is not None and base.error != o.error:
+                acc["error_class_differs_by_order"] += 1
+            if not ok:
+                acc["order_dependent_graphs"] += 1
+                sig = SIG_SRC if st_diff is not None else None
+                rep.violation(f"order_{tag}_{idx}", case.payload(kind="oracle", passthrough=pt,
+                    what="the graph (or success/failure) of add_workflow depends on the listing order",
+                    order_a=orders[0][0], sources_a=orders[0][1], result_a=listing(base),
+                    order_b=ao, sources_b=so, result_b=listing(o)), has_input=True, signature=sig)
+                break
+        for how in ("dict", "rdf"):
+            o = run_wf(lang, wf, how, pt)
+            acc["impl_runs"] += 1
+            ok = iso(base, o) if (base.error is None and o.error is None) else same_outcome(base, o)
+            if not ok:
+                acc["description_dependent_graphs"] += 1
+                sig = SIG_SRC if st_diff is not None else None
+                rep.violation(f"describe_{how}_{tag}_{idx}", case.payload(kind="oracle", passthrough=pt,
+                    what=f"the workflow given as {how} and as the listed in-memory description give "
+                         "different graphs", result_listed=listing(base), result_other=listing(o)),
+                    has_input=True, signature=sig)
+        if not case.dom:
+            continue
+        if base.error is not None:
+            if not is_typing_error(base.error):
+                acc["unexpected_errors"] += 1
+                rep.violation(f"raised_{tag}_{idx}", case.payload(kind="oracle", passthrough=pt,
+                    what="add_workflow raised something other than a typing error on a well-formed "
+                         "workflow", error=list(base.error)), has_input=True)
+            elif pt:
+                # ill-typed as a workflow: then the inlined expression must be ill-typed too
+                io, text = inline_obs(lang, wf, True)
+                acc["inline_compared_failures"] += 1
+                if io.error is None:
+                    acc["inline_violations"] += 1
+                    open_sources = [q for q, t in st0.items() if t == "_" or t.startswith("τ")]
+                    rep.violation(f"inline_{idx}", case.payload(kind="oracle",
+                        what="add_workflow rejects the workflow but the inlined expression type-checks",
+                        inlined_expression=text, error=list(base.error),
+                        sources_left_to_inference=open_sources, inlined_graph=listing(io)),
+                        has_input=True, signature=SIG_INFER if open_sources else None)
+            continue
+        # --- (a) the property, structurally
+        sp = spec_obs(lang, wf, pt)
+        if not iso(base, sp, structural=True):
+            acc["structure_violations"] += 1
+            rep.violation(f"structure_{tag}_{idx}", case.payload(kind="oracle", passthrough=pt,
+                what="from/via/internal triples, input/output marks or the resource->node map differ from "
+                     "the tool trees plugged together", impl=listing(base), expected=listing(sp)),
+                has_input=True)
+        # --- (b) typed: against the inlined expression
+        if pt:
+            io, text = inline_obs(lang, wf, True)
+            shared = case.shape["shared_intermediates"] > 0
+            if io.error is not None:
+                ok = False
+            elif shared:
+                ok = unfolding_equal(base, io)
+            else:
+                ok = iso(base, io, with_map=False)
+            acc["inline_compared_" + ("merged" if shared else "isomorphic")] += 1
+            if not ok:
+                acc["inline_violations"] += 1
+                open_sources = [q for q, t in st0.items() if t == "_" or t.startswith("τ")]
+                sig = SIG_INFER if open_sources else None
+                rep.violation(f"inline_{idx}", case.payload(kind="oracle",
+                    what="the workflow graph and the graph of the inlined expression disagree "
+                         "(operators, types, labels or wiring)", inlined_expression=text,
+                    sources_left_to_inference=open_sources,
+                    workflow_graph=listing(base), inlined_graph=listing(io)), has_input=True,
+                    signature=sig)
+        else:
+            # --- (d) the sources made for tool inputs
+            try:
+                exp = isolated_input_types(lang, wf)
+            except Exception:       # noqa: BLE001
+                exp = None
+            if exp is None:
+                acc["nopass_type_check_skipped"] += 1
+            else:
+                got = indirection_labels(base)
+                acc["nopass_input_sources_checked"] += sum(exp.values())
+                if got != exp:
+                    acc["nopass_type_violations"] += 1
+                    rep.violation(f"nopass_types_{idx}", case.payload(kind="oracle",
+                        what="with passthrough off the source nodes made for tool inputs do not carry the "
+                             "types the tools give those inputs when typed on their own",
+                        expected=dict(exp), got=dict(got), impl=listing(base)), has_input=True)
+
+
+def correspondence(rep: C.Report, cases, tag, acc: Counter):
+    jobs = []
+    for ci, case in enumerate(cases):
+        for (pt, ao, so, io) in case.model_jobs:
+            term, res = coq_wf(case.lang, case.wf, ao, so)
+            jobs.append((ci, pt, ao, so, io, res, f"Eval vm_compute in obs {coq_bool(pt)} {term}.\n"))
+    if not jobs:
+        return
+    outs = C.coq_eval_blocks(f"C12_{tag}", HDR, [(j[-1], 1) for j in jobs], nfiles=4)
+    for (ci, pt, ao, so, io, res, _), vals in zip(jobs, outs):
+        case = cases[ci]
+        v = vals[0]
+        val, same, dom = v[:5], v[5], v[6]
+        mo = model_obs(case.lang, res, val)
+        acc["evaluations"] += 1
+        if bool(dom) != case.dom:
+            rep.violation(f"domain_{tag}_{ci}", case.payload(kind="harness",
+                what="in_domain (harness) and wf_okb (Coq) disagree"), has_input=False)
+        if case.dom and not same:
+            rep.violation(f"wiring_{tag}_{ci}", case.payload(kind="correspondence",
+                what="the models of the pinned and of the repaired add_expr wiring differ on a workflow "
+                     "in the theorem's domain"), has_input=False)
+        if not case.dom:
+            acc["out_of_domain_model_only"] += 1
+            # outside the domain only success/failure is compared where the model decides it
+            if mo.error is not None and io.error is None:
+                acc["model_rejects_impl_accepts_out_of_domain"] += 1
+            nt = len(targets_of(case.wf))
+            if nt != 1 and (io.error is None or io.error[0] != "ValueError"):
+                # Workflow.target: exactly one final application, else ValueError
+                rep.violation(f"target_{tag}_{ci}", case.payload(kind="oracle", passthrough=pt,
+                    final_applications=targets_of(case.wf),
+                    what="a workflow without a unique final tool application was not rejected with "
+                         "ValueError", impl=listing(io)), has_input=True)
+            continue
+        if io.error is not None:
+            acc["in_domain_impl_raised"] += 1      # typing errors: the structural model has no types
+            continue
+        acc["compared_graphs"] += 1
+        if mo.error is not None or not iso(io, mo, structural=True):
+            acc["disagreements"] += 1
+            rep.violation(f"disagree_{tag}_{ci}_{'p' if pt else 'n'}", case.payload(kind="correspondence",
+                passthrough=pt, app_order=ao, source_order=so,
+                what="TransformationGraph.add_workflow differs from the model add_workflow (K_C12)",
+                impl=listing(io), model=listing(mo)), has_input=False)
+
+
+ST_HDR = """From Coq Require Import List Arith Bool.
+Import ListNotations.
+From TF Require Import Base.Hier Base.Ty Graph.SourceTypes.
+Definition enc (l : list (nat * option ty)) : list (list nat) :=
+  map (fun p => fst p :: match snd p with Some t => 1 :: ty_enc t | None => [0] end) l.
+Definition st (H : hier) (srcs : list nat) (uses : list (nat * option ty)) :=
+  (enc (source_types (upd_fixed H) srcs uses), enc (source_types (upd_pinned H) srcs uses)).
+"""
+
+
+def st_encode(lang: Lang, wf, app_order, source_order):
+    """the uses Workflow.source_types meets, in its order, as a Gallina term; None when an
+    input carries annotations that are not comparable (the parse itself fails then)"""
+    names = list(lang.parents)
+    opid = {b: 5 + i for i, b in enumerate(names)}
+    fid = 5 + len(names)
+
+    def ty(t):
+        return f"(TOp {fid} [{ty(t[1])}])" if isinstance(t, tuple) else f"(TOp {opid[t]} [])"
+    prod = producers(wf)
+    sid = {q: i for i, q in enumerate(wf["sources"])}
+    uses = []
+    for out in app_order:
+        a = prod[out]
+        per = {k: [] for k in range(len(a["ins"]))}
+
+        def walk(t):
+            if t[0] == "in":
+                if t[2] is not None:
+                    per[t[1]].append(t[2])
+            elif t[0] == "ap":
+                for x in t[2]:
+                    walk(x)
+        walk(a["term"])
+        for k, q in enumerate(a["ins"]):
+            if q not in sid:
+                continue
+            ans = per[k]
+            if not ans:
+                uses.append(f"({sid[q]}, None)")
+                continue
+            m = ans[0]
+            for x in ans[1:]:
+                m = lang.meet(m, x)
+                if m is None:
+                    return None
+            uses.append(f"({sid[q]}, Some {ty(m)})")
+    ps = C.coq_list([(opid[b], opid[p]) for b, p in lang.parents.items() if p is not None],
+                    lambda kv: f"({kv[0]}, {kv[1]})")
+    H = f"(mk_hier {ps} [({fid}, [true])])"
+    srcs = C.coq_list([sid[q] for q in source_order])
+    return f"Eval vm_compute in st {H} {srcs} {C.coq_list(uses)}.\n"
+
+
+def st_decode(lang: Lang, wf, rows):
+    names = list(lang.parents)
+    out = {}
+
+    def dec(xs, i):
+        o, n = xs[i], xs[i + 1]
+        i += 2
+        args = []
+        for _ in range(n):
+            a, i = dec(xs, i)
+            args.append(a)
+        if o == 5 + len(names):
+            return f"F({args[0]})", i
+        return names[o - 5], i
+    for row in rows:
+        s, flag = wf["sources"][row[0]], row[1]
+        out[s] = dec(row, 2)[0] if flag else None
+    return out
+
+
+def source_types_correspondence(rep: C.Report, cases, acc: Counter, tag):
+    jobs = []
+    for ci, case in enumerate(cases):
+        if not case.wf["sources"] or len(targets_of(case.wf)) < 1:
+            continue
+        for (ao, so) in case.st_jobs:
+            t = st_encode(case.lang, case.wf, ao, so)
+            if t is None:
+                acc["source_types_not_modelled"] += 1
+                continue
+            impl = source_types_obs(case.lang, case.wf, ao, so)
+            jobs.append((ci, ao, so, impl, t))
+    if not jobs:
+        return
+    outs = C.coq_eval_blocks(f"C12_st_{tag}", ST_HDR, [(j[-1], 1) for j in jobs], nfiles=2)
+    for (ci, ao, so, impl, _), vals in zip(jobs, outs):
+        case = cases[ci]
+        if "error" in impl:
+            acc["source_types_impl_raised"] += 1
+            continue
+        fixed = st_decode(case.lang, case.wf, vals[0][0])
+        pinned = st_decode(case.lang, case.wf, vals[0][1])
+        got = {s: (None if (t == "_" or t.startswith("τ")) else t) for s, t in impl.items()}
+        acc["source_types_compared"] += 1
+        acc["source_types_typed_sources"] += sum(1 for t in got.values() if t is not None)
+        if got != fixed:
+            acc["source_types_disagreements"] += 1
+            sig = SIG_SRC if got == pinned else None
+            rep.violation(f"source_types_model_{tag}_{ci}", case.payload(kind="correspondence",
+                app_order=ao, source_order=so, impl=got, model=fixed, model_of_pinned_code=pinned,
+                what="Workflow.source_types differs from the model source_types (upd_fixed)"),
+                has_input=False, signature=sig)
+
+
+def ensure_own_built():
+    """the C12 theories are compiled here when their .vo is missing or stale (they may
+    not be listed in _CoqProject yet)"""
+    import fcntl
+    files = ["Graph/AddExpr.v", "Graph/AddExprSpec.v", "Graph/AddExprProofs.v", "Graph/Workflow.v",
+             "Graph/WorkflowSpec.v", "Graph/WorkflowProofs.v", "Graph/SourceTypes.v"]
+    C.BUILD.mkdir(exist_ok=True)
+    lock = open(C.BUILD / ".lock", "w")
+    fcntl.flock(lock, fcntl.LOCK_EX)
+    try:
+        newest = 0.0
+        for f in files:
+            src = C.COQ / "theories" / f
+            vo = src.with_suffix(".vo")
+            stale = (not vo.exists()) or vo.stat().st_mtime < src.stat().st_mtime \
+                or (f != "Graph/SourceTypes.v" and vo.stat().st_mtime < newest)
+            if stale:
+                r = C.run(["coqc", "-Q", "theories", "TF", "-Q", "props", "TFP", f"theories/{f}"],
+                          600, cwd=C.COQ)
+                if r.returncode != 0:
+                    return False, r.stdout[-2000:]
+            if f != "Graph/SourceTypes.v":
+                newest = max(newest, vo.stat().st_mtime)
+        return True, ""
+    finally:
+        fcntl.flock(lock, fcntl.LOCK_UN)
+        lock.close()
+
+
+def main(tier: str, seed: int, replay: str | None = None) -> int:
+    C.force_repo_on_path()
+    rep = C.Report(PID, tier, seed)
+    if replay:
+        return do_replay(rep, replay)
+    ok, log = ensure_own_built()
+    if not ok:
+        rep.violation("proof_stage_build", {"kind": "proof", "what": "C12 theories do not compile",
+            "log_tail": log}, has_input=False)
+    rep.proof_stage()
+    rng = random.Random(seed)
+    acc = Counter()
+    shapes = Counter()
+    cases = []
+    for name, lang, wf in fixed_cases():
+        lang.build()
+        cases.append(Case(name, lang, wf))
+    nfixed = len(cases)
+    nlang, per = (45, 4) if tier == "quick" else (420, 5)
+    for _ in range(nlang):
+        lang = gen_lang(rng)
+        lang.build()
+        for _ in range(per):
+            wf = gen_workflow(rng, lang, rng.choice([1, 2, 2, 3, 3, 4, 4, 5, 5]))
+            if wf is None:
+                acc["generator_gave_up"] += 1
+                continue
+            cases.append(Case("random", lang, wf))
+    tstats = Counter()
+    distinct = set()
+    samples = []
+    nall = 0
+    for idx, case in enumerate(cases):
+        for k, v in case.shape.items():
+            if k in ("apps", "sources"):
+                shapes[f"{k}={v}"] += 1
+            elif v:
+                shapes[k] += 1
+        for a in case.wf["apps"]:
+            term_stats(case.lang, a["term"], tstats)
+        # thorough: every listing order for some of the five-application workflows
+        allo = tier == "thorough" and case.shape["apps"] == 5 and case.dom and nall < 12
+        if allo:
+            nall += 1
+        check_case(rep, rng, case, tier, acc, idx, all_orders=allo)
+        if case.dom and len(case.wf["apps"]) >= 2:
+            distinct.add(json.dumps([case.lang.to_json(), case.wf], sort_keys=True, default=str))
+        if len(samples) < 4 and case.dom and case.shape["shared_intermediates"] and case.name == "random":
+            samples.append({"operators": [(o["name"], case.lang.sig_text(o)) for o in case.lang.ops],
+                            "parents": case.lang.parents, "workflow": wf_text(case.lang, case.wf)})
+    shard = 400
+    for k in range(0, len(cases), shard):
+        correspondence(rep, cases[k:k + shard], f"{tier}_{k // shard}", acc)
+        source_types_correspondence(rep, cases[k:k + shard], acc, f"{tier}_{k // shard}")
+    ok_runs = acc["outcome_pass_ok"]
+    rep.coverage.update({
+        "evaluations": acc["evaluations"],
+        "distinct_nontrivial": len(distinct),
+        "disagreements": acc["disagreements"],
+        "rule": "random languages (2-6 base types in a forest, optionally a unary compound F with canonical "
+                "instances; first-order, polymorphic (x ** x, x ** x ** x, x ** F(x), F(x) ** x with bounds) and "
+                "higher-order operators) and random acyclic workflows of 1-5 tool applications with type-directed "
+                "tool expressions (depth <= 3, partial applications passed as functions, anonymous sources, "
+                "inputs used twice, annotations present / absent / more specific / occasionally wrong), shared "
+                "sources and shared intermediate results; each run with passthrough on and off, under several "
+                "listing orders of applications and sources, as WorkflowDict, as WorkflowGraph loaded from RDF "
+                f"and as the harness' own Workflow; {nfixed} fixed cases; evaluations = model runs compared "
+                "with the implementation; non-trivial = in the theorem's domain with at least two applications, "
+                "distinct by language and workflow",
+        "samples": samples,
+        "distribution": {
+            "cases": len(cases), "fixed": nfixed, "in_domain": sum(1 for c in cases if c.dom),
+            "implementation_runs": acc["impl_runs"] + 2 * len(cases),
+            "listing_orders_run": acc["listing_orders_run"],
+            "workflows_with_every_listing_order": nall,
+            "shapes": dict(shapes), "tool_expressions": dict(tstats),
+            "outcomes": {k: v for k, v in acc.items() if k.startswith("outcome_")},
+            "oracles": {k: acc[k] for k in (
+                "inline_compared_isomorphic", "inline_compared_merged", "inline_compared_failures",
+                "inline_violations", "unexpected_errors",
+                "structure_violations", "nopass_input_sources_checked", "nopass_type_check_skipped",
+                "nopass_type_violations", "order_dependent_graphs", "description_dependent_graphs",
+                "source_types_order_dependent", "source_types_differs_on_incomparable_annotations",
+                "error_class_differs_by_order")},
+            "correspondence": {k: acc[k] for k in (
+                "compared_graphs", "in_domain_impl_raised", "out_of_domain_model_only",
+                "model_rejects_impl_accepts_out_of_domain", "source_types_compared",
+                "source_types_typed_sources", "source_types_disagreements",
+                "source_types_impl_raised", "source_types_not_modelled")},
+            "generator_gave_up": acc["generator_gave_up"]},
+        "exhaustive": False})
+    rep.assumptions = [
+        "domain of the structural theorem (wf_okb): one final application, every input defined, acyclic, "
+        "every tool expression an operator application (or one anonymous source) that uses inputs as data; "
+        "other workflows are only compared with the model",
+        "the structural model has no types: whether an argument is function-typed is taken from the declared "
+        "operator signature; typing failures of the implementation are compared between runs of the "
+        "implementation only (success / failure; the error class may differ and is counted)",
+        "typed half (node types of the workflow graph = node types of the inlined expression, sources typed "
+        "as Workflow.source_types derives them) is checked implementation against implementation",
+        "add_from adds (a, from, b) and otherwise only tf:depends triples (add_from_ok, C09)",
+        "distinct Python objects have distinct identities (the memo expr_nodes is keyed by identity)",
+        "agreement between model and implementation is tested on the generated cases, not proved",
+    ]
+    return rep.finish(C.TRUSTED)
+
+
+def do_replay(rep: C.Report, path: str) -> int:
+    d = json.loads(open(path).read())
+    lang = Lang.from_json(d["language"])
+    lang.build()
+
+    def term(t):
+        if t[0] == "ap":
+            return ("ap", t[1], [term(x) for x in t[2]])
+        if t[0] == "in":
+            an = t[2]
+            return ("in", t[1], tuple(an) if isinstance(an, list) else an)
+        return ("anon", tuple(t[1]) if isinstance(t[1], list) else t[1])
+    wf = {"sources": d["workflow"]["sources"],
+          "apps": [{"out": a["out"], "term": term(a["term"]), "ins": a["ins"]} for a in d["workflow"]["apps"]]}
+    case = Case(d.get("name", "replay"), lang, wf)
+    print("replay:", wf_text(lang, wf))
+    acc = Counter()
+    check_case(rep, random.Random(0), case, "thorough", acc, 0,
+               all_orders=len(wf["apps"]) <= 5)
+    correspondence(rep, [case], "replay", acc)
+    source_types_correspondence(rep, [case], acc, "replay")
+    print("replay:", {k: v for k, v in acc.items() if v})
+    rep.coverage.update({"evaluations": acc["evaluations"], "replay_of": path})
+    return rep.finish(C.TRUSTED)
